@@ -281,6 +281,9 @@ pub fn check_case(focus: &str, case: &CoverCase, col: &Collector) -> CheckResult
         if via_parse {
             col.class("policy:via-parse");
         }
+        if rp.has_stars() {
+            col.class("policy:user-with-star-operand");
+        }
         let usk = cc
             .generate_user_secret_key(&mut msk, &pol)
             .map_err(|e| Fail::new("keygen-failed-on-well-formed-policy", format!("{} on {}: {}", rp.describe(), spec.shape(), short_err(&e))))?;
@@ -298,6 +301,9 @@ pub fn check_case(focus: &str, case: &CoverCase, col: &Collector) -> CheckResult
             }
         };
         let dnf = rp.dnf();
+        if rp.has_stars() {
+            col.class("policy:enc-with-star-operand");
+        }
         let (pol, _) = rp.to_policy().map_err(|e| Fail::new("generated-policy-rejected-by-parser", e))?;
         let (s, enc) = cc
             .encaps(&mpk, &pol)
@@ -581,7 +587,7 @@ pub fn run(ctx: &Ctx, col: &Collector) -> Meta {
     exhaustive(ctx, &focus, col);
     // one fixed large structure (630 rights, names longer than 127 bytes)
     {
-        let ps = |g: Vec<Vec<(u16, Vec<u16>)>>, shape: u64| PolicySpec { broadcast: false, groups: g, shape };
+        let ps = |g: Vec<Vec<(u16, Vec<u16>)>>, shape: u64| PolicySpec { broadcast: false, groups: g, shape, stars: 0 };
         let big = CoverCase {
             spec: big_spec(),
             detours: vec![Detour::Del { dim: 0, attr: 30000 }, Detour::RoundTrip, Detour::Add { dim: 0, after: Some(10000), hybrid: true }],
@@ -612,13 +618,13 @@ pub fn run(ctx: &Ctx, col: &Collector) -> Meta {
     } else {
         &["c02:next-higher-level", "c02:sibling-attribute", "c02:all-but-one-dimension-shared"]
     };
-    for c in need {
+    for c in need.iter().chain(["policy:user-with-star-operand", "policy:enc-with-star-operand"].iter()) {
         if col.class_count(c) == 0 && !col.stopped() {
             col.note(format!("generator unhealthy: class {c} empty"));
         }
     }
     let rule = if focus == "C01" {
-        "random structures (1-4 dimensions, hierarchies built by out-of-order `after` insertions, arbitrary hints, non-ASCII / inner-space names) with 2-5 user policies and 2-6 encryption policies (free, or derived from a user clause: same / lower attribute / extra unmentioned dimension / dropped dimension / one step outside), policies passed as ASTs or through the parser with random spacing and parentheses; half of the structures then go through 1-5 edits (delete / add with `after` / rename / master-key round-trip / update) before any key exists, the name-level structure being edited in parallel; 2 cases in 7 use a master key with tracing level 2 or 3 (tracers appended through the serialized form); plus exhaustive tables on three fixed structures (all user DNFs with <= 2 clauses x all single-conjunction encryption policies). Oracle: name-level cover predicate. Non-trivial = authorized pair whose authorization uses a lower hierarchical attribute, an unmentioned dimension, a multi-clause user policy, a multi-target encapsulation, a hybridized target or >= 3 dimensions; distinct by (structure shape, user DNF, encryption DNF)"
+        "random structures (1-4 dimensions, hierarchies built by out-of-order `after` insertions, arbitrary hints, non-ASCII / inner-space names) with 2-5 user policies and 2-6 encryption policies (free, or derived from a user clause: same / lower attribute / extra unmentioned dimension / dropped dimension / one step outside), policies passed as ASTs, built with the `&` / `|` operators, or through the parser with random spacing and parentheses; one policy in five carries a `*` operand (`X && *`, `(D::a || *) && X`, `X || *`; built with the operators, `*` read as true); half of the structures then go through 1-5 edits (delete / add with `after` / rename / master-key round-trip / update) before any key exists, the name-level structure being edited in parallel; 2 cases in 7 use a master key with tracing level 2 or 3 (tracers appended through the serialized form); plus exhaustive tables on three fixed structures (all user DNFs with <= 2 clauses x all single-conjunction encryption policies). Oracle: name-level cover predicate. Non-trivial = authorized pair whose authorization uses a lower hierarchical attribute, an unmentioned dimension, a multi-clause user policy, a multi-target encapsulation, a hybridized target or >= 3 dimensions; distinct by (structure shape, user DNF, encryption DNF)"
     } else {
         "same cases as C01 (one run yields both verdict kinds; this check reports the unauthorized half). Oracle: name-level cover predicate says no conjunction is covered => decaps must return None (Some(x) for any x is a violation). Non-trivial = unauthorized pair at distance one from authorization: exactly one attribute of a conjunction fails against some user clause (next higher level in a hierarchy, sibling in an anarchy), possibly sharing all other dimensions; distinct by (structure shape, user DNF, encryption DNF)"
     };
